@@ -18,6 +18,8 @@
 import XsVerif.Lemmas.JsonML
 import XsVerif.Lemmas.Tree
 import XsVerif.Lemmas.ContentOrder
+import XsVerif.Lemmas.DataElement
+import XsVerif.Lemmas.DefaultConv
 
 namespace XsVerif.Props.C05
 open XsVerif.Conv
@@ -82,8 +84,9 @@ theorem renum_children {α} (k : Nat) (l : List (Item α)) (nm : String) (s : Bo
 
 theorem jsonml_levelOK (m : Mapper) (useNs : Bool) :
     LevelOK (JsonML.conv m useNs) (JsonML.Inv m) (fun f hd sh => JsonML.WF1 m useNs f hd sh)
-      (fun {_} f hd its => JsonML.norm1 useNs f hd its) where
-  rt := fun f hd its w hk => JsonML.level_roundtrip (jsonml_wf_of_shape w) hk
+      (fun {_} f hd its => JsonML.norm1 useNs f hd its) Eq where
+  rt := fun f hd its w hk => ⟨_, JsonML.level_roundtrip (jsonml_wf_of_shape w) hk, ItemsRel.refl_eq _⟩
+  encR := by intro f nm v v' h; rw [h]
   inv := fun f hd its _ _ => ⟨_, JsonML.dec_eq m useNs f hd its⟩
   natural := by
     intro α β g f hd its
@@ -158,6 +161,275 @@ example : JsonML.dec idMapper true exFacts exHd exItems =
            .list [.atom "s" "a", .atom "i" "2"]] := by
   simp [JsonML.dec, JsonML.header, JsonML.decAttrs, JsonML.attrPairs, JsonML.textPart, JsonML.itemJ, exHd, exItems,
     exFacts, idMapper, dictUpdate, dictSet, xmlnsEntries, J.isNull]
+
+
+/-! ### DataElementConverter (dataobjects.py:535-578) -/
+
+theorem altOk_shape {α} (b : Bool) (l : List (Item α)) : DE.altOk b (shape l) = DE.altOk b l := by
+  induction l generalizing b with
+  | nil => rfl
+  | cons a l ih => cases a <;> simp_all [shape, mapIt, Item.map, DE.altOk]
+
+theorem hasChild_shape {α} (l : List (Item α)) : DE.hasChild (shape l) = DE.hasChild l := by
+  induction l with
+  | nil => rfl
+  | cons a l ih => cases a <;> simp_all [shape, mapIt, Item.map, DE.hasChild]
+
+theorem de_wf_of_shape {m : Mapper} {f hd} {its : List (Item J)}
+    (w : DE.WF1 m f hd (shape its)) : DE.WF1 m f hd its :=
+  { attrsUm := w.attrsUm, attrsNodup := w.attrsNodup, attrsNodup' := w.attrsNodup', textOk := w.textOk,
+    textAlone := fun h => shape_nil (w.textAlone h), noGroup := fun h => shape_nil (w.noGroup h),
+    notAlone := by
+      rcases w.notAlone with h | h
+      · exact .inl (shape_nil h)
+      · exact .inr (by rw [← hasChild_shape]; exact h),
+    alt := by rw [← altOk_shape]; exact w.alt,
+    kidsName := fun nm s _ h => w.kidsName nm s () (mem_shape_child h) }
+
+/-- **DataElement, one level** (dataobjects.py:535-578): for every admissible `ElementData` whose converted
+    children are DataElements, `element_encode (element_decode data)` returns the same tag, text, attributes and
+    xmlns, and the same content sequence (names, order, cdata parts renumbered from 1) in which every child
+    value is the decoded child, possibly carrying the tail that `element_decode` attached to it.  Unbounded in
+    the number of attributes and of content items. -/
+theorem dataelement_level_roundtrip (m : Mapper) (f : Facts) (hd : Hd) (its : List (Item J))
+    (w : DE.WF1 m f hd its) (hk : DE.Kids its) :
+    ∃ its', DE.enc m f hd.tag (DE.dec m f hd its) = .ok (hd, its') ∧ ItemsRel DE.R (renum 1 its) its' :=
+  DE.level_roundtrip w hk
+
+theorem dataelement_levelOK (m : Mapper) :
+    LevelOK (DE.conv m) DE.Inv (fun f hd sh => DE.WF1 m f hd sh) (fun {_} f hd its => DE.norm1 f hd its) DE.R where
+  rt := fun f hd its w hk => DE.level_roundtrip (de_wf_of_shape w) hk
+  encR := DE.encR m
+  inv := fun f hd its w hk => DE.dec_inv (de_wf_of_shape w) hk
+  natural := by
+    intro α β g f hd its
+    simp only [DE.norm1]
+    rw [renum_natural]
+  children := by
+    intro α f hd its nm s v h
+    exact renum_children _ _ _ _ _ h
+
+/-- **DataElement, whole documents**: for every typed tree of ElementData tuples (any depth, any width) whose
+    levels are admissible, encoding the decoded DataElement tree gives back the tree of ElementData tuples with
+    the cdata parts renumbered from 1 — no element, attribute, text, tail or namespace declaration is lost,
+    duplicated, reordered or renamed — provided the fuel is at least the depth of the tree.  Obtained from the
+    same generic lifting `tree_rt` as the JsonML theorem. -/
+theorem dataelement_roundtrip (m : Mapper) (sch : Nat → Option Facts) (n : Node)
+    (hw : TreeWF (fun f hd sh => DE.WF1 m f hd sh) sch n) (fuel : Nat) (hfuel : n.depth ≤ fuel) :
+    encTree (DE.conv m) sch fuel n.f n.hd.tag (decTree (DE.conv m) n)
+      = .ok (normTree (fun {_} f hd its => DE.norm1 f hd its) n) :=
+  (tree_rt (DE.conv m) (dataelement_levelOK m) sch n hw fuel hfuel).1
+
+def deItems : List (Item J) :=
+  [.cdata 1 (.atom "s" "hello"), .child "a" false (.elem "a" (.atom "i" "1") [] [] .null []),
+   .cdata 2 (.atom "s" "mid"), .child "a" false (.elem "a" (.atom "i" "2") [] [] .null [])]
+
+def deHd : Hd := { exHd with text := none }
+
+/-- non-vacuity of `dataelement_level_roundtrip`: a mixed element with an attribute, namespace declarations,
+    leading text, a tail and a repeated child meets the hypotheses … -/
+example : DE.WF1 idMapper exFacts deHd deItems ∧ DE.Kids deItems := by
+  have hk : DE.Kids deItems := by
+    intro nm s v h
+    simp only [deItems, List.mem_cons, Item.child.injEq, List.mem_nil_iff, or_false] at h
+    rcases h with h | ⟨rfl, _, rfl⟩ | h | ⟨rfl, _, rfl⟩
+    · cases h
+    · exact ⟨_, _, _, _, rfl⟩
+    · cases h
+    · exact ⟨_, _, _, _, rfl⟩
+  have hd : DE.isDigits "a" = false := by decide
+  refine ⟨{ attrsUm := by simp [idMapper], attrsNodup := by simp [deHd, exHd], attrsNodup' := by simp [deHd, exHd],
+            textOk := by simp [deHd], textAlone := by simp [deHd], noGroup := by simp [exFacts],
+            notAlone := .inr rfl, alt := rfl, kidsName := ?_ }, hk⟩
+  intro nm s v h
+  simp only [deItems, List.mem_cons, Item.child.injEq, List.mem_nil_iff, or_false] at h
+  rcases h with h | ⟨rfl, _, _⟩ | h | ⟨rfl, _, _⟩
+  · cases h
+  · exact hd
+  · cases h
+  · exact hd
+
+/-- … and the decoded DataElement really carries value, attributes, xmlns, children and a tail -/
+example : DE.dec idMapper exFacts deHd deItems =
+    .elem "root" (.atom "s" "hello") [("id", .atom "i" "7")]
+      [.elem "a" (.atom "i" "1") [] [] (.atom "s" "mid") [], .elem "a" (.atom "i" "2") [] [] .null []]
+      .null [("t", "urn:t")] := by
+  have hd : DE.isDigits "a" = false := by decide
+  simp [DE.dec, DE.decLoop, DE.decStep, DE.decAttrs, DE.modifyLast, DE.setTail, deHd, exHd, deItems, exFacts, idMapper,
+    dictUpdate, dictSet, hd]
+
+/-- the guard "two character data parts are never adjacent" of `DE.WF1.alt` is necessary: `element_decode`
+    keeps only the last of two adjacent parts (`data_element[-1].tail = value` twice), so the content that
+    comes back is shorter.  (Full statement without the guard: false.)  Replayed on the real
+    `DataElementConverter.element_decode/element_encode` by the harness. -/
+theorem dataelement_roundtrip_counterexample :
+    DE.enc idMapper exFacts "root"
+      (DE.dec idMapper exFacts { tag := "root", text := none, attrs := [], xmlns := [] }
+        [.child "a" false (.elem "a" (.atom "i" "1") [] [] .null []), .cdata 1 (.atom "s" "x"),
+         .cdata 2 (.atom "s" "y")])
+    = .ok ({ tag := "root", text := none, attrs := [], xmlns := [] },
+           [.child "a" false (.elem "a" (.atom "i" "1") [] [] (.atom "s" "y") []), .cdata 1 (.atom "s" "y")]) := by
+  have hd : DE.isDigits "a" = false := by decide
+  simp [DE.dec, DE.decLoop, DE.decStep, DE.decAttrs, DE.modifyLast, DE.setTail, DE.enc, DE.encKids, exFacts, idMapper,
+    dictUpdate, hd, J.isNull, bind, Except.bind, pure, Except.pure]
+
+/-! ### the default convention, XMLSchemaConverter (converters/base.py:336-494)
+
+  Full statement (FALSE for the code): "for every admissible ElementData, `element_encode (element_decode d)`
+  is `d` up to `norm1`".  The default convention collapses same-named children into one dictionary entry,
+  drops character data parts without a `cdata_prefix`, and puts attributes, text, declarations and children in
+  one key space.  Proved: the statement under the decidable guards of `Dflt.WF1` (same-named children
+  contiguous, no character data between children, no key collisions, no list-typed children, attributes/text
+  not dropped by the options); the three `_counterexample`s below show what happens outside the guards and
+  are replayed on the real converter by the harness. -/
+
+theorem keysOf_shape {α} (m : Mapper) (l : List (Item α)) : Dflt.keysOf m (shape l) = Dflt.keysOf m l := by
+  induction l with
+  | nil => rfl
+  | cons a l ih => cases a <;> simp_all [shape, mapIt, Item.map, Dflt.keysOf]
+
+theorem noCdata_shape {α} (l : List (Item α)) : Dflt.noCdata (shape l) = Dflt.noCdata l := by
+  induction l with
+  | nil => rfl
+  | cons a l ih => cases a <;> simp_all [shape, mapIt, Item.map, Dflt.noCdata]
+
+theorem dflt_wf_of_shape {o : Dflt.Opts} {m : Mapper} {f hd} {its : List (Item J)}
+    (w : Dflt.WF1 o m f hd (shape its)) : Dflt.WF1 o m f hd its :=
+  { attrsUm := w.attrsUm, attrsNodup' := w.attrsNodup', attrPre := w.attrPre, attrClass := w.attrClass,
+    attrsNodup := w.attrsNodup, xmlnsNodup := w.xmlnsNodup, xmlnsClass := w.xmlnsClass, xmlnsBack := w.xmlnsBack,
+    textNotXmlns := w.textNotXmlns, textOk := w.textOk, textKeyOk := w.textKeyOk, textPlace := w.textPlace,
+    textAlone := fun h => shape_nil (w.textAlone h), noGroup := fun h => shape_nil (w.noGroup h),
+    noCd := by rw [← noCdata_shape]; exact w.noCd,
+    contiguous := by rw [← keysOf_shape]; exact w.contiguous,
+    kids := fun nm s _ h => w.kids nm s () (mem_shape_child h) }
+
+/-- **default convention, one level, under guards** (base.py:336-494, `preserve_root=False`): for every
+    options record, every name mapper and every `ElementData` that meets the guards `Dflt.WF1`, whose converted
+    children are not sequences, `element_encode (element_decode data)` returns the tag, the text, the attribute
+    dict (same keys, same typed values, same order), the namespace declarations and the children (same names,
+    same values, same order) again, up to `Dflt.norm1`.  Unbounded in the number of attributes, declarations,
+    children and in the length of the runs of same-named children. -/
+theorem default_level_roundtrip_partial (o : Dflt.Opts) (m : Mapper) (f : Facts) (hd : Hd) (its : List (Item J))
+    (w : Dflt.WF1 o m f hd its) (hk : Dflt.Kids its) :
+    Dflt.enc o m f hd.tag (Dflt.dec o m f hd its) = .ok (Dflt.norm1 o f hd its) :=
+  Dflt.level_roundtrip w hk
+
+theorem mapIt_isEmpty {α β} (g : α → β) (l : List (Item α)) : (mapIt g l).isEmpty = l.isEmpty := by
+  cases l <;> simp [mapIt]
+
+theorem default_levelOK (o : Dflt.Opts) (m : Mapper) :
+    LevelOK (Dflt.conv o m) Dflt.Inv (fun f hd sh => Dflt.WF1 o m f hd sh)
+      (fun {_} f hd its => Dflt.norm1 o f hd its) Eq where
+  rt := fun f hd its w hk => ⟨_, Dflt.level_roundtrip (dflt_wf_of_shape w) hk, ItemsRel.refl_eq _⟩
+  encR := by intro f nm v v' h; rw [h]
+  inv := fun f hd its w _ => Dflt.dec_inv (dflt_wf_of_shape w)
+  natural := by
+    intro α β g f hd its
+    simp only [Dflt.norm1, mapIt_isEmpty]
+    split
+    · simp only [renum_natural]
+    · split
+      · rfl
+      · split <;> try split
+        all_goals rfl
+  children := by
+    intro α f hd its nm s v h
+    simp only [Dflt.norm1] at h
+    split at h
+    · exact renum_children _ _ _ _ _ h
+    · split at h
+      · simp at h
+      · split at h
+        · split at h <;> simp at h
+        · simp at h
+
+/-- **default convention, whole documents, under guards**: for every typed tree of ElementData tuples (any
+    depth, any width) all of whose levels meet the guards, encoding the decoded dictionaries gives the tree back
+    up to the documented normalisations — provided the fuel is at least the depth of the tree.  Same generic
+    lifting `tree_rt` as for JsonML and DataElement. -/
+theorem default_roundtrip_partial (o : Dflt.Opts) (m : Mapper) (sch : Nat → Option Facts) (n : Node)
+    (hw : TreeWF (fun f hd sh => Dflt.WF1 o m f hd sh) sch n) (fuel : Nat) (hfuel : n.depth ≤ fuel) :
+    encTree (Dflt.conv o m) sch fuel n.f n.hd.tag (decTree (Dflt.conv o m) n)
+      = .ok (normTree (fun {_} f hd its => Dflt.norm1 o f hd its) n) :=
+  (tree_rt (Dflt.conv o m) (default_levelOK o m) sch n hw fuel hfuel).1
+
+/-- keys of the content that comes back (`#` for a character data part) -/
+def contentKeys : Except Err (Hd × List (Item J)) → List String
+  | .ok (_, its) => its.map fun | .cdata _ _ => "#" | .child nm _ _ => nm
+  | .error _ => ["!"]
+
+def abFacts : Facts :=
+  { hasGroup := true, simple := false, mixed := true, emptyContent := false, complex := true,
+    singleGroup := false, isList := false, anyType := false, attrs := ["a"],
+    children := [{ name := "a", ty := 1, single := false }, { name := "b", ty := 1, single := false }] }
+
+def abHd : Hd := { tag := "root", text := none, attrs := [], xmlns := [] }
+
+/-- outside the guard "same-named children are contiguous": `a b a` comes back as `a a b` -/
+theorem default_roundtrip_counterexample_noncontiguous :
+    contentKeys (Dflt.enc {} idMapper abFacts "root" (Dflt.dec {} idMapper abFacts abHd
+      [.child "a" false (.atom "i" "1"), .child "b" false (.atom "i" "2"), .child "a" false (.atom "i" "3")]))
+    = ["a", "a", "b"] := by decide
+
+/-- outside the guard "no mixed text between children" (no `cdata_prefix`): the character data part is lost -/
+theorem default_roundtrip_counterexample_mixed_text :
+    contentKeys (Dflt.enc {} idMapper abFacts "root" (Dflt.dec {} idMapper abFacts abHd
+      [.cdata 1 (.atom "s" "txt"), .child "a" false (.atom "i" "1")]))
+    = ["a"] := by decide
+
+/-- outside the guard "no attribute/child key collisions" (`attr_prefix=''`): the attribute `a` and the child
+    `a` share one dictionary entry; two children `a` and no attribute come back -/
+theorem default_roundtrip_counterexample_key_collision :
+    contentKeys (Dflt.enc { attrPrefix := some "" } idMapper abFacts "root"
+      (Dflt.dec { attrPrefix := some "" } idMapper abFacts { abHd with attrs := [("a", .atom "s" "x")] }
+        [.child "a" false (.atom "i" "1")]))
+    = ["a", "a"] := by decide
+
+def dfItems : List (Item J) :=
+  [.child "a" false (.dict [("@k", .atom "s" "v"), ("$", .atom "i" "1")]), .child "a" false (.atom "i" "2"),
+   .child "b" false .null]
+
+/-- non-vacuity of `default_level_roundtrip_partial`: an element with an attribute, a namespace declaration, a
+    run of two `a` (one of them a dictionary) and a `b` meets the guards for the default options … -/
+example : Dflt.WF1 {} idMapper abFacts exHd dfItems ∧ Dflt.Kids dfItems := by
+  have hk : Dflt.Kids dfItems := by
+    intro nm s v h
+    simp only [dfItems, List.mem_cons, Item.child.injEq, List.mem_nil_iff, or_false] at h
+    rcases h with ⟨_, _, rfl⟩ | ⟨_, _, rfl⟩ | ⟨_, _, rfl⟩ <;> rfl
+  have ka : Dflt.KidOK {} idMapper abFacts "a" :=
+    { cls := by decide, um := rfl, decl := ⟨{ name := "a", ty := 1, single := false }, by simp [findChild, abFacts], rfl⟩ }
+  have kb : Dflt.KidOK {} idMapper abFacts "b" :=
+    { cls := by decide, um := rfl, decl := ⟨{ name := "b", ty := 1, single := false }, by simp [findChild, abFacts], rfl⟩ }
+  refine ⟨{ attrsUm := by simp [idMapper], attrsNodup' := by simp [exHd], attrPre := fun _ => rfl,
+            attrClass := ?_, attrsNodup := by simp [Dflt.mapAttrs, exHd], xmlnsNodup := by simp [xmlnsEntries, exHd],
+            xmlnsClass := ?_, xmlnsBack := by decide, textNotXmlns := ?_,
+            textOk := by simp [exHd], textKeyOk := by simp [exHd], textPlace := by simp [exHd],
+            textAlone := by simp [exHd], noGroup := by simp [abFacts], noCd := rfl, contiguous := by decide,
+            kids := ?_ }, hk⟩
+  · intro p hp kv hkv
+    have : p = "@" := by cases hp; rfl
+    subst this
+    simp only [exHd, List.mem_singleton] at hkv
+    subst hkv
+    decide
+  · intro kv hkv
+    simp only [exHd, xmlnsEntries, List.map_cons, List.map_nil, List.mem_singleton] at hkv
+    subst hkv
+    decide
+  · intro k hk'
+    have : k = "$" := by cases hk'; rfl
+    subst this
+    decide
+  · intro nm s v h
+    simp only [dfItems, List.mem_cons, Item.child.injEq, List.mem_nil_iff, or_false] at h
+    rcases h with ⟨rfl, _, _⟩ | ⟨rfl, _, _⟩ | ⟨rfl, _, _⟩
+    · exact ka
+    · exact ka
+    · exact kb
+
+/-- … and the dictionary really collapses the run -/
+example : contentKeys (Dflt.enc {} idMapper abFacts "root" (Dflt.dec {} idMapper abFacts exHd dfItems))
+    = ["a", "a", "b"] := by decide
 
 /-! ### content re-ordering helpers of the encoder (models.py:819-949)
 
